@@ -123,7 +123,7 @@ class IterfitMask(FunctionContract):
             xs = v.xsort
             return [v.maskwork.slen() == n, v.yfit.slen() == n,
                     S.forall(0, n, lambda k: S.implies(S.el(v.maskwork, k), S.el(invvar, S.el(xs, k)) > 0), patterns=lambda k: [S.el(v.maskwork, k)])]
-        return {"(error != 0 or qdone == -1) and iiter <= maxiter": dict(inv=inv)}
+        return {"iiter <= maxiter": dict(inv=inv)}
 
     def samples(self, rng):
         for _ in range(40):
@@ -143,3 +143,204 @@ class IterfitMask(FunctionContract):
 
     def call_native_kwargs(self):
         return dict(nord=3, bkspace=2.0)
+
+
+
+@register("C10")
+class IterfitProtocol:
+    """fit -> reject beyond lower/upper sigma -> refit until nothing changes or maxiter, against an independent dense least-squares solver;
+    permuting the input permutes the mask identically and leaves the curve unchanged (bounded, numerical)"""
+    name = "iterfit_protocol"
+    prop = "C10"
+    target = "pydl.pydlutils.bspline:iterfit"
+    level = "B"
+    KINDS = ("permutation:mask_permuted_identically", "permutation:curve_unchanged", "weights:nonpositive_flagged_false",
+             "protocol:refits_until_qdone_or_maxiter", "protocol:mask_of_the_documented_procedure", "protocol:curve_of_the_documented_procedure",
+             "no_unexpected_exception")
+
+    @staticmethod
+    def _design(x, knots, nord):
+        from scipy.interpolate import BSpline
+        k = nord - 1
+        return BSpline.design_matrix(np.clip(x, knots[k], knots[-k - 1]), knots, k).toarray()
+
+    def _reference(self, x, y, iv, knots, nord, lower, upper, maxiter):
+        xs = np.argsort(x, kind="stable")
+        xw, yw, ivw = x[xs], y[xs], iv[xs]
+        mask = ivw > 0
+        D = self._design(xw, knots, nord)
+        nfits, it, done, coeff = 0, 0, False, None
+        self._cond = 1.0
+        while not done and it <= maxiter:
+            sw = np.sqrt(ivw * mask)
+            sol = np.linalg.lstsq(D * sw[:, None], yw * sw, rcond=None)
+            coeff = sol[0]
+            sv = sol[3]
+            self._cond = max(self._cond, (sv[0] / sv[-1]) if sv[-1] > 0 else np.inf)
+            nfits += 1
+            it += 1
+            diff = yw - D @ coeff
+            bad = (diff * np.sqrt(np.abs(ivw)) < -lower) | (diff * np.sqrt(np.abs(ivw)) > upper)
+            new = mask & ~bad
+            done = bool(np.all(new == mask))
+            mask = new
+        out = np.ones(x.size, dtype=bool)
+        out[xs] = mask
+        return out, coeff, nfits
+
+    def _case(self, rng, rep, seed):
+        n = rng.randint(40, 90)
+        x = np.sort(np.array([rng.uniform(0, 10) for _ in range(n)]))
+        y = np.sin(x) + np.array([rng.gauss(0, 0.02) for _ in range(n)])
+        iv = np.full(n, 2500.0)
+        for _ in range(rng.randint(0, 3)):
+            y[rng.randint(3, n - 4)] += rng.choice([-1, 1]) * rng.uniform(20, 50)
+        for _ in range(rng.randint(0, 4)):
+            iv[rng.randint(0, n - 1)] = rng.choice([0.0, -1.0])
+        nord = rng.randint(2, 4)
+        bks = rng.choice([1.0, 1.5, 2.5])
+        maxiter = rng.choice([0, 1, 10])
+        lower, upper = rng.choice([(5, 5), (4, 30), (30, 4)])
+        sparse = (rep % 3 == 2)
+        if sparse:
+            # sparse sampling: some breakpoint intervals hold exactly one point
+            keep = np.zeros(n, dtype=bool)
+            edges = np.arange(0.0, 10.0 + bks, bks)
+            for a_, b_ in zip(edges[:-1], edges[1:]):
+                inside = np.nonzero((x >= a_) & (x < b_) & (iv > 0))[0]
+                if inside.size:
+                    keep[inside[: (1 if rng.random() < 0.5 else 3)]] = True
+            keep[:nord + 1] = True
+            keep[-(nord + 1):] = True
+            x, y, iv = x[keep], y[keep], iv[keep]
+            n = int(x.size)
+        return dict(x=x, y=y, iv=iv, n=n, nord=nord, bks=bks, maxiter=maxiter, lower=lower, upper=upper,
+                    inp=dict(rep=rep, seed=seed, n=n, nord=nord, bkspace=bks, maxiter=maxiter, lower=lower, upper=upper, sparse=sparse))
+
+    def _check_case(self, c, rng, note):
+        import pydl.pydlutils.bspline as bmod
+        from pydl.pydlutils.bspline import iterfit
+        x, y, iv, n, inp = c["x"], c["y"], c["iv"], c["n"], c["inp"]
+        orig_fit = bmod.bspline.fit
+        results = []
+        for order in ("sorted", "reversed", "shuffled"):
+            perm = list(range(n))
+            if order == "reversed":
+                perm.reverse()
+            elif order == "shuffled":
+                rng.shuffle(perm)
+            perm = np.array(perm)
+            calls = [0]
+
+            def counting(self_, *a, **k):
+                calls[0] += 1
+                return orig_fit(self_, *a, **k)
+            bmod.bspline.fit = counting
+            try:
+                sset, m = iterfit(x[perm], y[perm], invvar=iv[perm], nord=c["nord"], bkspace=c["bks"], maxiter=c["maxiter"], lower=c["lower"], upper=c["upper"])
+            finally:
+                bmod.bspline.fit = orig_fit
+            back = np.empty(n, dtype=bool)
+            back[perm] = m
+            if np.isscalar(sset.coeff):
+                curve = None
+            else:
+                yy, inside = sset.value(x)
+                curve = np.where(inside, yy, 0.0)         # compared inside the breakpoint range only
+            results.append((order, back, curve, calls[0], sset))
+        base = results[0]
+        for order, back, curve, nf, sset in results[1:]:
+            if not np.array_equal(back, base[1]):
+                note("permutation:mask_permuted_identically", "%s order: mask differs at %s" % (order, np.nonzero(back != base[1])[0][:5]), inp)
+            if curve is not None and base[2] is not None and not np.allclose(curve[base[1]], base[2][base[1]], rtol=1e-6, atol=1e-8):
+                note("permutation:curve_unchanged", "%s order: curve differs by %g" % (order, np.abs(curve - base[2])[base[1]].max()), inp)
+        if np.any(base[1][iv <= 0]):
+            note("weights:nonpositive_flagged_false", "a point with invvar <= 0 is flagged True", inp)
+        sset = base[4]
+        if np.isscalar(sset.coeff) or not np.all(sset.mask):
+            return          # degenerate / masked breakpoints: the reference solver has no counterpart
+        knots = np.asarray(sset.breakpoints, dtype=float)
+        refmask, refcoeff, refn = self._reference(x, y, iv, knots, c["nord"], c["lower"], c["upper"], c["maxiter"])
+        refcurve = self._design(x, knots, c["nord"]) @ refcoeff
+        k = c["nord"] - 1
+        refcurve = np.where((x >= knots[k]) & (x <= knots[-k - 1]), refcurve, 0.0)
+        if self._cond > 1.0e6:
+            return          # (nearly) rank-deficient weighted problem: "every segment supported by data" fails, the optimum is not unique
+        if base[3] != refn:
+            note("protocol:refits_until_qdone_or_maxiter", "iterfit made %d fits, the documented procedure %d (maxiter=%d)" % (base[3], refn, c["maxiter"]), inp)
+        if not np.array_equal(base[1], refmask):
+            note("protocol:mask_of_the_documented_procedure", "mask differs at %s" % (np.nonzero(base[1] != refmask)[0][:5],), inp)
+        else:
+            # compared where the final fit is constrained by data (points still flagged good); elsewhere a spline segment without
+            # data is not determined by least squares
+            good = base[1]
+            if not np.allclose(base[2][good], refcurve[good], rtol=1e-5, atol=1e-6):
+                note("protocol:curve_of_the_documented_procedure", "curve differs by %g" % np.abs(base[2][good] - refcurve[good]).max(), inp)
+
+    def run_job(self, tier, seed, exclusions):
+        import random
+        import time
+        import traceback
+        import warnings
+        t0 = time.time()
+        res = JobResult(job=self.name, target=self.target, level="B", prop="C10", obligations=[], failures=[], crashed=None,
+                        bound="generated data sets (smooth signal + noise, 0..3 injected outliers, random zero/negative weights, dense and sparse sampling incl. "
+                              "single-point intervals), orders 2..4, three breakpoint spacings, maxiter 0/1/10, symmetric and asymmetric limits, three input orders each",
+                        paths=0, solver_s=0.0, queries=0, native_runs=0, native_failures=[], vacuity=None,
+                        assumptions=["numerical comparison (1e-5 relative) with numpy.linalg.lstsq on the scipy B-spline design matrix over the knots iterfit chose"])
+        fails = {}
+
+        def note(kind, msg, inp):
+            fails.setdefault(kind, []).append((msg, inp))
+        try:
+            rng = random.Random(seed * 13 + 5)
+            nrep = 30 if tier == "quick" else 240
+            count = 0
+            with warnings.catch_warnings():
+                warnings.simplefilter("ignore")
+                for rep in range(nrep):
+                    c = self._case(rng, rep, seed)
+                    try:
+                        self._check_case(c, rng, note)
+                    except Exception as e:
+                        note("no_unexpected_exception", "%s: %s" % (type(e).__name__, str(e)[:150]), c["inp"])
+                    count += 3
+            res["paths"] = res["native_runs"] = count
+            for kd in self.KINDS:
+                b = fails.get(kd, [])
+                d = dict(name="iterfit_protocol:" + kd, path=0, status="unsat" if not b else "sat", secs=0.0, backend="native-numeric", size=0,
+                         note="" if not b else b[0][0])
+                if b:
+                    d.update(inputs=dict(clause=kd, **b[0][1]), model=str(b[:2])[:1000], reason="")
+                res["obligations"].append(d)
+            res["vacuity"] = dict(fits=count)
+        except Exception:
+            res["crashed"] = traceback.format_exc()
+        res["wall_s"] = time.time() - t0
+        return res
+
+    def native_replay(self, inputs):
+        import random
+        import warnings
+        rng = random.Random(int(inputs.get("seed", 0)) * 13 + 5)
+        fails = {}
+        with warnings.catch_warnings():
+            warnings.simplefilter("ignore")
+            for rep in range(int(inputs.get("rep", 0)) + 1):
+                c = self._case(rng, rep, inputs.get("seed", 0))
+                f = {}
+                try:
+                    self._check_case(c, rng, lambda k, m, i: f.setdefault(k, []).append(m))
+                except Exception as e:
+                    f.setdefault("no_unexpected_exception", []).append("%s: %s" % (type(e).__name__, e))
+                fails = f
+        return (not fails, "generated case rep=%s seed=%s: %s" % (inputs.get("rep"), inputs.get("seed"), {k: v[0] for k, v in fails.items()}))
+
+
+# the callee contracts iterfit's proof relies on are part of this property's check (a change inside djs_reject that breaks ITS
+# contract breaks C10 through the modular argument): the inverse-variance forms of djs_reject used by iterfit
+import contracts.c17 as _c17
+for _nm in ("Reject_invvar_inout", "Reject_invvar_inx"):
+    _base = getattr(_c17, _nm)
+    _cls = type("Callee_" + _nm, (_base,), dict(name="callee_" + _base.name, __module__=__name__))
+    globals()[_cls.__name__] = register("C10")(_cls)
